@@ -613,9 +613,16 @@ void run_one(const prog_t& P, const long id, counters_t& C)
         C.worst_feas_ratio = std::max(C.worst_feas_ratio, dev / (1e-6L * (1 + binf)));
         if (!(dev <= 1e-6L * (1 + binf)))
         {
+            ld terms = std::fabs(static_cast<ld>(P.b[i]));
+            for (size_t j = 0; j < N; ++j) terms += std::fabs(static_cast<ld>(P.A[i][j]) * x[j]);
             std::ostringstream d;
-            d << "row=" << i << " |a.x-b|=" << static_cast<double>(dev) << " tol=" << static_cast<double>(1e-6L * (1 + binf)) << " " << st.str();
-            fail(C, "equality", id, d.str(), ptext);
+            d << "row=" << i << " |a.x-b|=" << static_cast<double>(dev) << " tol=" << static_cast<double>(1e-6L * (1 + binf))
+              << " terms=" << static_cast<double>(terms) << " " << st.str();
+            // the deviation is below 512 ulp of the row's own terms (2^-44 * sum |a_j x_j|): the point is so far away that
+            // double arithmetic cannot resolve the property's absolute tolerance -- defect candidate `converged at a huge
+            // point`, reported separately (see notes/C04.md), not as a failure of the feasibility logic
+            if (dev <= 0x1p-44L * terms) { ++C.candidates; std::cout << "CAND feasibility-at-rounding-level id=" << id << " clause=equality " << d.str() << " :: " << ptext << "\n"; }
+            else fail(C, "equality", id, d.str(), ptext);
             break;
         }
     }
@@ -625,9 +632,13 @@ void run_one(const prog_t& P, const long id, counters_t& C)
         C.worst_feas_ratio = std::max(C.worst_feas_ratio, dev / (1e-6L * (1 + hinf)));
         if (!(dev <= 1e-6L * (1 + hinf)))
         {
+            ld terms = std::fabs(static_cast<ld>(P.h[i]));
+            for (size_t j = 0; j < N; ++j) terms += std::fabs(static_cast<ld>(P.G[i][j]) * x[j]);
             std::ostringstream d;
-            d << "row=" << i << " g.x-h=" << static_cast<double>(dev) << " tol=" << static_cast<double>(1e-6L * (1 + hinf)) << " " << st.str();
-            fail(C, "inequality", id, d.str(), ptext);
+            d << "row=" << i << " g.x-h=" << static_cast<double>(dev) << " tol=" << static_cast<double>(1e-6L * (1 + hinf))
+              << " terms=" << static_cast<double>(terms) << " " << st.str();
+            if (dev <= 0x1p-44L * terms) { ++C.candidates; std::cout << "CAND feasibility-at-rounding-level id=" << id << " clause=inequality " << d.str() << " :: " << ptext << "\n"; }
+            else fail(C, "inequality", id, d.str(), ptext);
             break;
         }
     }
